@@ -3,6 +3,7 @@ package main
 import (
 	"fmt"
 	"sort"
+	"strings"
 	"go/types"
 
 	"golang.org/x/tools/go/ssa"
@@ -30,6 +31,10 @@ func (e *Exec) modOfInstr(in ssa.Instruction, depth int, ms *modSet) {
 	case *ssa.Store:
 		switch a := x.Addr.(type) {
 		case *ssa.FieldAddr:
+			// fields of an object allocated inside the region are fresh in every iteration
+			if al, isAlloc := a.X.(*ssa.Alloc); isAlloc && ms.region != nil && (ms.region[al.Block()] || depth > 0) {
+				break
+			}
 			stt, T := structOf(a.X.Type())
 			if stt != nil {
 				e.addFieldArrs(ms, T, stt.Field(a.Field).Name(), stt.Field(a.Field).Type())
@@ -72,8 +77,9 @@ func (e *Exec) modOfInstr(in ssa.Instruction, depth int, ms *modSet) {
 	case *ssa.Alloc, *ssa.MakeInterface, *ssa.MakeClosure, *ssa.MakeSlice, *ssa.MakeMap, *ssa.MakeChan:
 		ms.alloc = true
 	case *ssa.MapUpdate:
-		ms.arrs["MAPV"] = true
-		ms.arrs["MAPD"] = true
+		for _, n := range []string{"MAPD_Int", "MAPD_String", "MAPV_Int_Int", "MAPV_Int_Bool", "MAPV_Int_String", "MAPV_String_Int", "MAPV_String_Bool", "MAPV_String_String"} {
+			ms.arrs[n] = true
+		}
 	case *ssa.Send:
 		ms.ghosts["*chan"] = true
 	case ssa.CallInstruction:
@@ -104,6 +110,17 @@ func (e *Exec) modOfInstr(in ssa.Instruction, depth int, ms *modSet) {
 			}
 			for _, m := range fc.Modifies {
 				e.modOfClause(fc, m, ms)
+			}
+			return
+		}
+		if callee == nil && !c.IsInvoke() && e.fc != nil && (e.fc.DefaultCallback == "app" || e.fc.DefaultCallback == "pure") {
+			// declared callback: no effect on library heap; ghosts the function may modify are havocked
+			if e.fc.DefaultCallback == "app" {
+				for _, m := range e.fc.Modifies {
+					if _, ok := e.P.CS.Ghosts[strings.TrimSpace(m)]; ok && !e.isEpilogueTarget(strings.TrimSpace(m)) {
+						ms.ghosts[strings.TrimSpace(m)] = true
+					}
+				}
 			}
 			return
 		}
@@ -319,4 +336,13 @@ func backSuffix(li *loopInfo, from *ssa.BasicBlock) string {
 		}
 	}
 	return ""
+}
+
+func (e *Exec) isEpilogueTarget(g string) bool {
+	for _, ep := range e.fc.Epilogue {
+		if ep.Name == g {
+			return true
+		}
+	}
+	return false
 }
